@@ -302,14 +302,11 @@ def r20c(model, ctx):
     ctx.check(ok, R, "emit_stmt:Property:test", "multi-bit conditions are reduced with `b` (non-zero)", "a multi-bit property condition must "
               "be reduced with the boolean operator `b`", f"{IR}:{lf.lineno}")
     # EnableInserter gates every controlled domain with statements (no extra skip conditions)
-    f = model.func(f"{XFRM}::_ControlInserter.on_fragment")
-    loops = [s for s in f.body if isinstance(s, ast.For) and "fragment.statements.items()" in unparse(s.iter)]
-    need(len(loops) == 1, "_ControlInserter.on_fragment: statement loop not found")
-    conts = [n for n in ast.walk(loops[0]) if isinstance(n, ast.Continue)]
-    ok = len(conts) == 1
-    ctx.check(ok, R, "_ControlInserter.on_fragment:no-extra-skip", "only uncontrolled / comb domains are skipped",
+    _fresh, skip_ok, how = c03.control_inserter_paths(model)
+    ctx.check(skip_ok, R, "_ControlInserter.on_fragment:no-extra-skip", "only uncontrolled / comb domains are skipped",
               "a controlled domain must not be skipped for any other reason (e.g. because it drives no signals): EnableInserter gates "
-              "*statements*, so a domain holding only Print/Assert must still be wrapped", f"{XFRM}:{loops[0].lineno}")
+              f"*statements*, so a domain holding only Print/Assert must still be wrapped; found {how}",
+              f"{XFRM}:{model.func(f'{XFRM}::_ControlInserter.on_fragment').lineno}")
 
 
 def _only(rule_fn, keep):
